@@ -265,7 +265,7 @@ def run_real(case, acc):
     th.start()
     S, cap, sels = realnet.make_cap_session(record_selector=True)
     ws = env.WebSocket('ws://127.0.0.1:%d/' % port, proxies={})
-    t0 = time.time()
+    t0 = time.monotonic()
     seen = abandon(lambda: ws.connect(session_class=S, poll=0.1, ping_rate=0), ws, k, mech)
     done.set()
     th.join(5)
@@ -276,7 +276,7 @@ def run_real(case, acc):
     acc.count2('oracle', 'real_socket_runs')
     key = None
     detail = dict(seen=seen, fileno=[c.fileno() for c in cap], extra_fds=sorted(after - before), selectors=[s.closed for s in sels],
-                  wall=round(time.time() - t0, 2))
+                  wall=round(time.monotonic() - t0, 2))
     if len(seen) <= k:
         acc.count2('oracle', 'real_runs_ended_before_abandon_point')
     if cap and cap[0].fileno() != -1:
@@ -330,7 +330,7 @@ def run_busy_writer(case, acc):
                     inside.wait(5)
                     threading.Timer(1.5, release.set).start()
                 yield ev
-        t0 = time.time()
+        t0 = time.monotonic()
         try:
             abandon(genf, ws, 3, mech)      # events: connecting, connected, ready, poll
         except (simnet.Quiesced, simnet.BudgetExceeded) as e:
@@ -344,7 +344,7 @@ def run_busy_writer(case, acc):
         gc.collect()
     acc.count2('oracle', 'abandon_points_checked')
     acc.count2('oracle', 'busy_writer_runs')
-    took = time.time() - t0
+    took = time.monotonic() - t0
     key = None
     detail = dict(sockets=[(s_.sid, s_.closed) for s_ in w.socks], writer_errors=errs, took=round(took, 2), started=bool(started))
     if not started or not inside.is_set():
